@@ -73,6 +73,7 @@ def keyfn(variant, e, f):
     elif f.kind in ("crash", "hang", "exit"):
         d = f.sig
     op = e["op"] if e else f.op
+    variant = "-".join(variant.split("-")[:2])          # build + runtime level; the cfg tag is not part of a finding's identity
     return "%s %s [%s] %s%s" % (variant, op, argclass(e) if e else "-", f.kind, ("/" + d) if d else "")
 
 
@@ -82,26 +83,44 @@ def harness(ctx, debug_level=None):
                                ["mem_replay.c"], libdir, cflags, ldflags=WRAP)
 
 
+OPS = ("malloc", "calloc", "strdup", "realloc", "free", "dump")
+
+
 def mechanism(ctx):
+    """Direction (A): TLC's transition relation of MemTrack replayed on spifmem_*.  Returns the reference NULL-ness table."""
     exe = harness(ctx)
-    quick = ctx.tier == "quick"
-    runs = [("MemTrack_quick.cfg", 3, [4, 5])] if quick else [("MemTrack_thorough.cfg", 3, [4, 5]), ("MemTrack_levels.cfg", 3, [0, 6]),
-                                                            ("MemTrack_pool4.cfg", 4, [5])]
-    walks = (300, 40) if quick else (3000, 80)
-    graphs = []
-    for cfg, n, levels in runs:
-        g, res = objcheck.tlc_graph(ctx, "MC_MemTrack.tla", cfg, workers=4)
-        graphs.append((cfg, n, levels, g))
-        for lv in levels:
-            objcheck.replay_cover(ctx, g, [tok(init_state(lv, n))], exe, "d4-l%d%s" % (lv, "" if n == 3 else "-pool%d" % n),
-                                  [str(lv), str(n)], keyfn, walks=walks, jobs=4)
-    # the same transitions against a library compiled with DEBUG=5 (D_MEM statements live, output discarded)
     exe5 = harness(ctx, 5)
-    cfg, n, levels, g = graphs[0]
-    for lv in ([5] if quick else [4, 5]):
-        objcheck.replay_cover(ctx, g, [tok(init_state(lv, n))], exe5, "d5-l%d" % lv, [str(lv), str(n)], keyfn,
-                              walks=walks, jobs=4, env={"MEM_QUIET": "1"})
-    return graphs
+    quick = ctx.tier == "quick"
+    # (cfg, pool size, runtime levels on the default build, runtime levels on the DEBUG=5 build)
+    runs = [("MemTrack_quick.cfg", 3, [4, 5], [5])] if quick else [
+        ("MemTrack_quick.cfg", 3, [4, 5], [4, 5]), ("MemTrack_thorough.cfg", 3, [4, 5], [5]),
+        ("MemTrack_levels.cfg", 3, [0, 6], [6]), ("MemTrack_pool4.cfg", 4, [5], [5])]
+    walks = (300, 40) if quick else (3000, 80)
+    ref = None
+    for cfg, n, levels, levels5 in runs:
+        g, res = objcheck.tlc_graph(ctx, "MC_MemTrack.tla", cfg, workers=4)
+        byop = {}
+        for _, _, e in g.edges:
+            byop[e["op"]] = byop.get(e["op"], 0) + 1
+        ctx.cov["tlc_runs"][-1]["distinct_edges_by_op"] = byop
+        missing = [o for o in OPS if not byop.get(o)]
+        if missing:
+            raise Broken("vacuity: no transition of %s generated by %s" % (missing, cfg))
+        if ref is None:
+            ref = reference_nullness(g)
+        tag = cfg[len("MemTrack_"):-len(".cfg")]
+        for lv in levels:
+            objcheck.replay_cover(ctx, g, [tok(init_state(lv, n))], exe, "d4-l%d-%s" % (lv, tag), [str(lv), str(n)], keyfn, walks=walks, jobs=4)
+        # the same transitions against a library compiled with DEBUG=5 (D_MEM statements live, output discarded)
+        for lv in levels5:
+            objcheck.replay_cover(ctx, g, [tok(init_state(lv, n))], exe5, "d5-l%d-%s" % (lv, tag), [str(lv), str(n)], keyfn,
+                                  walks=walks, jobs=4, env={"MEM_QUIET": "1"})
+        cov = ctx.cov["replay"]
+        done = sum(cov[v]["edges_verified_on_impl"] + cov[v]["edges_failed"] for v in cov if v.endswith("-" + tag) and v.startswith("d4-"))
+        if done != g.n_edges() and not ctx.violations:
+            raise Broken("%s: %d distinct edges emitted but %d replayed on the default build" % (cfg, g.n_edges(), done))
+        del g
+    return ref
 
 
 def mem_level():
@@ -147,10 +166,9 @@ def crash_sig(err):
     return "%s@%s" % asan_signature(err)
 
 
-def macro_probe(ctx, g):
+def macro_probe(ctx, ref):
     """MALLOC/CALLOC/REALLOC/FREE/STRDUP observed in builds with tracking compiled out and in, at several runtime levels."""
     ml = mem_level()
-    ref = reference_nullness(g)
     builds = [4, 5] if ctx.tier == "quick" else [0, 4, 5]
     levels = [0, 5] if ctx.tier == "quick" else [0, 4, 5, 6]
     shape_of = {"realloc_live_shrink": "realloc_live_n", "realloc_live_grow": "realloc_live_n"}
@@ -244,8 +262,8 @@ def object_workloads(ctx):
 
 
 def run(ctx):
-    graphs = mechanism(ctx)
-    macro_probe(ctx, graphs[0][3])
+    ref = mechanism(ctx)
+    macro_probe(ctx, ref)
     object_workloads(ctx)
     ctx.cov["exhaustive"] = True
     ctx.cov["rule"] = ("every transition TLC generates for MemTrack in the bounded scope is executed once per (build, runtime level) "
